@@ -15,7 +15,7 @@ TRUSTED_BASE = [
     "the json codec round-trips str/int/None/list/dict and applies JSONEncoder.default bottom-up (as_dict of nested objects, set -> sorted list, Path -> str, "
     "str-valued enums -> their value); json_decoder is applied bottom-up as object_hook: both are mirrored by the contract's codec()/decode() which call the real "
     "as_dict and the real json_decoder on every nested value",
-    "inspect.cleandoc(s.rstrip()) is idempotent (axiom on the uninterpreted cleandoc/rstrip terms)",
+    "inspect.cleandoc / str.rstrip are uninterpreted (no idempotence assumed: the loader must not clean a dumped docstring again)",
     "objects are built by the real constructors with symbolic arguments; expressions are strings here (expression classes are covered by C03 and the bounded tier)",
 ]
 ASSUMPTIONS = [
@@ -47,10 +47,9 @@ def mk_docstring(P, tag):
         return None
     v = SStr(z3.String(tag + "_value"))
     d = new(P, "Docstring", v, lineno=opt_int(P, tag + "_lineno"), endlineno=opt_int(P, tag + "_endlineno"))
-    # idempotence of the cleaning done by Docstring.__init__
+    # no assumption about the cleaning done by Docstring.__init__: inspect.cleandoc is NOT idempotent (a first text line indented deeper than the
+    # rest keeps its indentation once and loses it the second time), so a loader that cleans the dumped value again is refuted here
     cv = zstr(d.fields["value"])
-    clean = lambda z: ufn("cleandoc", StrS, StrS)(ufn("str_rstrip", StrS, StrS)(z))  # noqa: E731
-    P.assume(clean(cv) == cv)
     P.assume(z3.Length(cv) > 0)      # a falsy (empty) docstring is indistinguishable from no docstring in the dump
     return d
 
@@ -256,6 +255,44 @@ def c_module(P):
         P.prove("filepath_restored", isinstance(bf, SObj) and zstr(bf.fields["from_str"]).sexpr() == z3.Function("PATH_STR", IntS, StrS)(fp.ident).sexpr())
     P.prove("members.count", len(m.fields["members"]) == len(back.fields["members"]))
     P.cover("module")
+
+
+@contract("C08", "reload.names_get_their_scope_back", [EN + "_attach_parent_to_exprs", EN + "_attach_parent_to_expr"], floor=6, replay="replay_roundtrip")
+def c_reattach(P):
+    """`names in reloaded expressions resolve as before`: a name resolves through its `parent` (C04), which is not part of the JSON, so the loader has to give
+    every name of every expression it stores on an object the scope the object is loaded into.  One object of each kind, a bare name in each of its
+    expression-valued fields (class: decorators, bases; function: decorators, parameter annotations and defaults, return annotation; attribute: value and
+    annotation); strings and None are left alone and nothing raises."""
+    scope = SObj("Module", {}, ident=z3.Int("scope_id"), frozen=True)
+    names = {}
+
+    def name(tag):
+        # a bare name as the expression loader builds it: no scope yet
+        names[tag] = SObj("ExprName", {"name": SStr(z3.String(tag + "_name")), "parent": None}, ident=z3.Int(tag + "_id"))
+        plain = z3.Int(tag + "_form")          # 0: a name, 1: a plain string (unparsed), 2: nothing
+        P.assume(z3.And(plain >= 0, plain <= 2))
+        if P.branch(plain == 0):
+            return names[tag]
+        names.pop(tag)
+        return SStr(z3.String(tag + "_text")) if P.branch(plain == 1) else None
+    kind = z3.Int("object_kind")
+    P.assume(z3.And(kind >= 0, kind <= 2))
+    P.witness["object_kind"] = SInt(kind)
+    deco = lambda tag: SObj("Decorator", {"value": name(tag), "lineno": None, "endlineno": None}, ident=z3.Int(tag + "_deco_id"))  # noqa: E731
+    if P.branch(kind == 0):
+        obj = SObj("Class", {"docstring": None, "decorators": [deco("class_decorator")], "bases": [name("base0"), name("base1")]}, ident=z3.Int("obj_id"))
+    elif P.branch(kind == 1):
+        par = SObj("Parameter", {"name": SStr(z3.String("p")), "annotation": name("parameter_annotation"), "default": name("parameter_default")}, ident=z3.Int("par_id"))
+        obj = SObj("Function", {"docstring": None, "decorators": [deco("function_decorator")], "parameters": [par], "returns": name("returns")}, ident=z3.Int("obj_id"))
+    else:
+        obj = SObj("Attribute", {"docstring": None, "value": name("attribute_value"), "annotation": name("attribute_annotation")}, ident=z3.Int("obj_id"))
+    k, res = outcome(P, lambda: call(P, EN + "_attach_parent_to_exprs", obj, scope))
+    P.prove("never_raises", k == "ok", exc=(P.resolve_cls(res) if k == "raise" else ""))
+    if k != "ok":
+        return
+    for tag, n in names.items():
+        P.prove(f"scope_restored.{tag}", n.fields["parent"] is scope, field=tag)
+    P.cover("reattach")
 
 
 def bounded_checks(tier, seed):
